@@ -96,6 +96,22 @@ func codecs(v *big.Int, msg []byte) func() string {
 	}
 }
 
+// sharedKeyVerify: both threads verify with ONE public key object that was never serialised (fresh
+// from key derivation or aggregation, i.e. still in projective form), as the share collectors do with
+// a group member's key.  Verification must treat its inputs as read-only.
+func sharedKeyVerify(pk *groupsig.Pubkey, sk *groupsig.Seckey, msg, other []byte) func() string {
+	sig := groupsig.Sign(*sk, msg)
+	sgb := sig.Serialize()
+	msg, other = append([]byte{}, msg...), append([]byte{}, other...)
+	return func() string {
+		s := groupsig.DeserializeSign(append([]byte{}, sgb...))
+		ok := groupsig.VerifySig(*pk, msg, *s)
+		wrong := groupsig.VerifySig(*pk, other, *s)
+		again := groupsig.VerifySig(*pk, msg, *s)
+		return fmt.Sprintf("ok=%v other-message=%v again=%v", ok, wrong, again)
+	}
+}
+
 func main() {
 	m33 := msgOf(33, "a")
 	m33[0] = 0                                    // leading zero byte
@@ -117,6 +133,18 @@ func main() {
 		// a signer with a long message next to a verifier with a related long message and another key
 		{Name: "sign-verify||verify-other-key-size", Mk: func() []func() string {
 			return []func() string{signVerify(4, long, long2), verifyOnly(5, long2, long)}
+		}},
+		// one never-serialised key object used by both verifiers (derived key; aggregated key)
+		{Name: "verify||verify-shared-fresh-key", Mk: func() []func() string {
+			sk := key(6)
+			pk := groupsig.GeneratePubkey(*sk)
+			return []func() string{sharedKeyVerify(pk, sk, short, long), sharedKeyVerify(pk, sk, long, short)}
+		}},
+		{Name: "verify||verify-shared-aggregated-key", Mk: func() []func() string {
+			a, b := key(7), key(8)
+			sk := groupsig.AggregateSeckeys([]groupsig.Seckey{*a, *b})
+			pk := groupsig.AggregatePubkeys([]groupsig.Pubkey{*groupsig.GeneratePubkey(*a), *groupsig.GeneratePubkey(*b)})
+			return []func() string{sharedKeyVerify(pk, sk, m33, rel), sharedKeyVerify(pk, sk, rel, m33)}
 		}},
 		// codecs of all four types, small value (leading zeros) against a full-width value
 		{Name: "codecs||codecs-other-size", Mk: func() []func() string {
